@@ -536,9 +536,7 @@ def stepS (st : DState) (line : String) : DState × String :=
   | ["w-prune", n] =>
     match n.toNat? with
     | some n =>
-      let keep (c : World.Cur) : Bool :=
-        ((st.db.cur.filter fun o => o.src == c.src && o.ig == c.ig && o.num > c.num).length < n)
-      let db := { st.db with cur := st.db.cur.filter keep }
+      let db := World.prune n st.db
       ({ st with db := db }, dbDigest db)
     | none => (st, "bad-op")
   | ["w-cur", src, ig, num, hash] =>
